@@ -238,7 +238,7 @@ def rule_framing(ctx: Ctx):
                 lenarg = any(x == ("call", ("builtin", "len"), (EV,), x[3] if len(x) > 3 else None) or (x[0] == "call" and x[1] == ("builtin", "len") and x[2][0] == EV)
                              for x in subterms(pre[1]))
                 args = pre[3]
-                a0 = args[0] if args else None
+                a0 = args[0] if args and args[0][0] != "kw" else next((a[2] for a in args if a[0] == "kw" and a[1] == "length"), None)
                 bo = [a for a in args if a[0] == "kw" and a[1] == "byteorder"] or ([args[1]] if len(args) > 1 and args[1][0] != "kw" else [])
                 ok = lenarg and a0 is not None and a0[0] == "param" and a0[1] == "prefix_size" and bool(bo) and \
                     any(x[0] == "param" and x[1] == "byteorder" for x in subterms(bo[0]))
